@@ -563,6 +563,8 @@ type Explorer struct {
 	Start *ssa.BasicBlock
 	// Within, when non-nil, restricts the exploration to these blocks.
 	Within map[*ssa.BasicBlock]bool
+	// Leave, when non-nil, is called for every feasible edge that leaves Within (with the state refined for the edge).
+	Leave func(from, to *ssa.BasicBlock, st PState)
 	// MaxStates bounds the exploration (default 200000).
 	MaxStates int
 	// Exceeded is set when MaxStates was hit.
@@ -612,6 +614,12 @@ func (e *Explorer) Run(init PState) {
 			case *ssa.If:
 				for i, s := range it.b.Succs {
 					if e.Within != nil && !e.Within[s] {
+						if e.Leave != nil {
+							ns := st.Copy()
+							if e.Branch == nil || e.Branch(x, i == 0, ns) {
+								e.Leave(it.b, s, ns)
+							}
+						}
 						continue
 					}
 					ns := st.Copy()
@@ -623,6 +631,8 @@ func (e *Explorer) Run(init PState) {
 			case *ssa.Jump:
 				if e.Within == nil || e.Within[it.b.Succs[0]] {
 					stack = append(stack, item{it.b.Succs[0], it.b, st})
+				} else if e.Leave != nil {
+					e.Leave(it.b, it.b.Succs[0], st)
 				}
 				alive = false
 			case *ssa.Return, *ssa.Panic:
